@@ -1158,7 +1158,9 @@ where
                 .into_iter()
                 .map(|elem| match elem {
                     Some(ExprOrSpread { spread: None, expr }) => match *expr {
-                        Expr::Ident(ident) if ident.sym == left.sym => {
+                        // the assigned binding itself, not merely something spelled the same
+                        // (a generated temporary may share the spelling of a user variable)
+                        Expr::Ident(ident) if ident.to_id() == left.to_id() => {
                             let name = private_ident!(format!("_{}", ident.sym));
                             self.injecting_consts.push(VarDeclarator {
                                 span: DUMMY_SP,
